@@ -11,7 +11,7 @@ use crate::rng::{hex, unhex, Rng};
 use crate::{Args, Out};
 use std::collections::BTreeMap;
 use std::net::IpAddr;
-use trippy_core::{Builder, MultipathStrategy, PortDirection, Protocol};
+use trippy_core::{MultipathStrategy, PortDirection, Protocol};
 use trippy_tui::verif::{self as tv, TrippyConfig};
 
 // ------------------------------------------------------------------ abstract values
@@ -413,39 +413,54 @@ fn addr_tok(a: IpAddr) -> String {
 }
 
 /// the Builder call of app.rs `start_tracer` (replicated: that function is private and spawns a thread)
-pub fn builder_verdict(cfg: &TrippyConfig, target: IpAddr, trace_identifier: u16) -> String {
-    let r = std::panic::catch_unwind(std::panic::AssertUnwindSafe(|| {
-        Builder::new(target)
-            .interface(cfg.interface.clone())
-            .source_addr(cfg.source_addr)
-            .privilege_mode(cfg.privilege_mode)
-            .protocol(cfg.protocol)
-            .packet_size(cfg.packet_size)
-            .payload_pattern(cfg.payload_pattern)
-            .tos(cfg.tos)
-            .icmp_extension_parse_mode(cfg.icmp_extension_parse_mode)
-            .read_timeout(cfg.read_timeout)
-            .tcp_connect_timeout(cfg.min_round_duration)
-            .trace_identifier(trace_identifier)
-            .max_rounds(cfg.max_rounds)
-            .first_ttl(cfg.first_ttl)
-            .max_ttl(cfg.max_ttl)
-            .grace_duration(cfg.grace_duration)
-            .max_inflight(cfg.max_inflight)
-            .initial_sequence(cfg.initial_sequence)
-            .multipath_strategy(cfg.multipath_strategy)
-            .port_direction(cfg.port_direction)
-            .min_round_duration(cfg.min_round_duration)
-            .max_round_duration(cfg.max_round_duration)
-            .max_flows(cfg.max_flows())
-            .max_samples(cfg.max_samples)
-            .build()
-    }));
+/// The verdict of the real `Builder::build` on the effective configuration, through the REAL `start_tracer` of app.rs (hook: the
+/// tracer is built, not spawned), and - when it is accepted - every setting of the tracer that was built compared with the effective
+/// configuration it was built from.  -> ("ok" | "bad" | ..., names of the settings that differ or "-")
+pub fn start_tracer_verdict(cfg: &TrippyConfig, target: IpAddr, trace_identifier: u16) -> (String, String) {
+    let r = std::panic::catch_unwind(std::panic::AssertUnwindSafe(|| tv::start_tracer_unspawned(cfg, "host.example", target, trace_identifier)));
     match r {
-        Err(_) => "fault:panic".to_string(),
-        Ok(Ok(_)) => "ok".to_string(),
-        Ok(Err(trippy_core::Error::BadConfig(_))) => "bad".to_string(),
-        Ok(Err(e)) => format!("err:{e}").replace(' ', "_"),
+        Err(_) => ("fault:panic".to_string(), "-".to_string()),
+        Ok(Err(e)) => match e.downcast_ref::<trippy_core::Error>() {
+            Some(trippy_core::Error::BadConfig(_)) => ("bad".to_string(), "-".to_string()),
+            _ => (format!("err:{e}").replace(' ', "_"), "-".to_string()),
+        },
+        Ok(Ok(info)) => {
+            let t = &info.data;
+            let mut d: Vec<&str> = vec![];
+            let src = cfg.source_addr.unwrap_or(if target.is_ipv4() { IpAddr::from([192, 0, 2, 1]) } else { "2001:db8::1".parse().unwrap() });
+            let c = t.verif_channel_config(src);
+            if c.privilege_mode != cfg.privilege_mode { d.push("unprivileged"); }
+            if c.protocol != cfg.protocol { d.push("protocol"); }
+            if c.target_addr != target { d.push("target"); }
+            if c.packet_size.0 != cfg.packet_size { d.push("packet_size"); }
+            if c.payload_pattern.0 != cfg.payload_pattern { d.push("payload_pattern"); }
+            if c.initial_sequence.0 != cfg.initial_sequence { d.push("initial_sequence"); }
+            if c.tos.0 != cfg.tos { d.push("tos"); }
+            if c.icmp_extension_parse_mode != cfg.icmp_extension_parse_mode { d.push("icmp_extensions"); }
+            if c.read_timeout != cfg.read_timeout { d.push("read_timeout"); }
+            // (app.rs gives the TCP connect timeout the minimum round duration)
+            if c.tcp_connect_timeout != cfg.min_round_duration { d.push("tcp_connect_timeout"); }
+            let k = t.verif_strategy_config();
+            if k.target_addr != target { d.push("target"); }
+            if k.protocol != cfg.protocol { d.push("protocol"); }
+            if k.trace_identifier.0 != trace_identifier { d.push("trace_identifier"); }
+            if k.max_rounds.map(|n| n.0.get()) != cfg.max_rounds { d.push("max_rounds"); }
+            if k.first_ttl.0 != cfg.first_ttl { d.push("first_ttl"); }
+            if k.max_ttl.0 != cfg.max_ttl { d.push("max_ttl"); }
+            if k.grace_duration != cfg.grace_duration { d.push("grace_duration"); }
+            if k.max_inflight.0 != cfg.max_inflight { d.push("max_inflight"); }
+            if k.initial_sequence.0 != cfg.initial_sequence { d.push("initial_sequence"); }
+            if k.multipath_strategy != cfg.multipath_strategy { d.push("multipath_strategy"); }
+            if k.port_direction != cfg.port_direction { d.push("port_direction"); }
+            if k.min_round_duration != cfg.min_round_duration { d.push("min_round_duration"); }
+            if k.max_round_duration != cfg.max_round_duration { d.push("max_round_duration"); }
+            let st = t.snapshot();
+            if st.max_samples() != cfg.max_samples { d.push("max_samples"); }
+            if st.max_flows() != cfg.max_flows() { d.push("max_flows"); }
+            if info.target_hostname != "host.example" { d.push("target_hostname"); }
+            d.dedup();
+            ("ok".to_string(), if d.is_empty() { "-".to_string() } else { d.join(",") })
+        }
     }
 }
 
@@ -522,7 +537,7 @@ pub fn config_fields(c: &TrippyConfig, pid: u16) -> Vec<(&'static str, String)> 
         ("log_filter", s(&c.log_filter)),
         ("log_span_events", (c.log_span_events as usize).to_string()),
         ("max_flows_eff", c.max_flows().to_string()),
-        ("builder", builder_verdict(c, IpAddr::from([10, 0, 0, 1]), pid)),
+        ("builder", start_tracer_verdict(c, IpAddr::from([10, 0, 0, 1]), pid).0),
     ]
 }
 
@@ -626,6 +641,7 @@ pub fn run_case(c: &Case) -> Ran {
             let out = format!("ok {}", f.iter().map(|(k, v)| format!("{k}={v}")).collect::<Vec<_>>().join(" "));
             // (not printed, so the model line is unchanged: judged by the oracle only)
             f.push(("tui_config_diff", tui_config_diff(&cfg)));
+            f.push(("tracer_diff", start_tracer_verdict(&cfg, IpAddr::from([10, 0, 0, 1]), c.pid).1));
             Ran { output: out, fields: Some(f), detail: inputs }
         }
     }
@@ -702,6 +718,10 @@ pub fn oracle(c: &Case, ran: &Ran) -> String {
     // the frontend runs with exactly these values (app.rs make_tui_config)
     if let Some(dv) = actual.get("tui_config_diff") {
         if dv.as_str() != "-" { for k in dv.split(',') { fails.borrow_mut().push(format!("{k}:value_in_force_in_the_frontend_differs_from_the_effective_configuration")); } }
+    }
+    // the tracer app.rs start_tracer builds runs with exactly these values
+    if let Some(dv) = actual.get("tracer_diff") {
+        if dv.as_str() != "-" { for k in dv.split(',') { fails.borrow_mut().push(format!("{k}:value_in_force_in_the_tracer_differs_from_the_effective_configuration")); } }
     }
     // an accepted configuration must be accepted by the builder too, or refused by it with a configuration error
     if let Some(b) = actual.get("builder") {
